@@ -1,6 +1,8 @@
 SPECIFICATION Spec
 CONSTANTS
   CapScope = "scoped"
+  OpState = "stateless"
+  IncScope = "instance"
   MaxOps = 5
   Record = TRUE
   DefaultCap = 20
